@@ -149,6 +149,21 @@ def run(ctx: Ctx) -> Outcome:
         tlc.run_tlc("Lifecycle", cfg, workers=1, timeout=3000, on_json=lambda tag, d: cases.append(d), want_prints=False),
         "Lifecycle enumeration",
     )
+    # deeper forests over a smaller alphabet (4 nodes quick / 5 thorough): shapes where the deleted resource hangs under an
+    # intermediate node, chains of depth 4, several trees in one scenario
+    deep_cfg = "Lifecycle_quick4.cfg" if ctx.quick else "Lifecycle_thorough5.cfg"
+    seen_keys = {json.dumps(c, sort_keys=True) for c in cases} if not ctx.quick else set()
+    deep: list[dict] = []
+    res2 = tlc.require_ok(
+        tlc.run_tlc("Lifecycle", deep_cfg, workers=1, timeout=3000, on_json=lambda tag, d: deep.append(d), want_prints=False),
+        "Lifecycle deep enumeration",
+    )
+    n3 = 3 if ctx.quick else 4
+    cases += [c for c in deep if len(c["tree"]) > n3]
+    res.distinct += res2.distinct
+    res.generated += res2.generated
+    for inv in res2.violated:
+        res.violated.append(inv)
     if res.violated:
         for inv in res.violated:
             out.violations.append(Violation("C18:spec:" + inv, "design invariant %s violated in Lifecycle.tla" % inv,
@@ -200,7 +215,7 @@ def run(ctx: Ctx) -> Outcome:
         "rule": "every scenario forest reachable in Lifecycle.tla under %s (TLC-enumerated, each replayed once into the real "
                 "recorder + both checks); non-trivial = spec or implementation reports a finding for the last node" % cfg,
         "exhaustive": True,
-        "constants": {"cfg": cfg, "kinds": sorted(KIND), "ids": [1, 11]},
+        "constants": {"cfg": [cfg, deep_cfg], "kinds": sorted(KIND), "ids": [1, 11]},
         "disagreements": len(dis),
         "tlc_enumeration_s": round(res.wall_s, 1), "replay_s": round(t_replay, 1), "tlc_judge_s": round(jres.wall_s, 1),
         "judge_states": jres.distinct,
